@@ -8,6 +8,7 @@
 
 mod core;
 mod e1;
+mod e2;
 mod hostcall;
 mod pipeline;
 mod prelude;
